@@ -239,7 +239,7 @@ def genTabStmt (i : Nat) : G (Stmt × String) := do
         pure (.mk (outer ++ [.nested { sym := sym } (.mk (inner ++ [.pairs t]))]))
       let (s, _) ← g.run 0
       pure (s, "pairs-of-three-inside-nested")
-    else do let s ← genNestedSup { depth := 1, pairs := true, nestedPairs := true }; pure (s, "pairs")
+    else do let s ← genNestedSup { depth := 1, pairs := true, nestedPairs := true, groupNested := true }; pure (s, "pairs")
   | _ => do let s ← genSupC02 3; pure (s, "nested-deep")
 
 /-- number of rows a statement produces (product of alternatives per statement, summed over the
